@@ -14,11 +14,38 @@
 #include <time.h>
 #include "libc_models.h"
 #define memcpy verif_memcpy
+/* Symbolic-size heap objects make CBMC's byte-level encoding explode (measured: > 12 GB for a 3-byte name);
+ * functional harnesses therefore serve string allocations as fixed-size objects after asserting that the request
+ * fits.  Exact-size objects (out-of-bounds detection) are used by the *.safe variants (-DEXACT_MALLOC). */
+#ifndef EXACT_MALLOC
+#ifndef STROBJ
+#define STROBJ 264
+#endif
+static void *verif_malloc(size_t n)
+{
+	void *p;
+	CHECK(n <= STROBJ, "string allocation fits the modelled object size");
+	p = malloc(STROBJ);
+	__CPROVER_assume(p != NULL);
+	return p;
+}
+static char *verif_strdup(const char *s)
+{
+	size_t n = strlen(s), i;
+	char *r = verif_malloc(n + 1);
+	for (i = 0; i <= n; ++i) r[i] = s[i];
+	return r;
+}
+#define malloc verif_malloc
+#define strdup verif_strdup
+#endif
 
 #ifndef S_MAX
 #define S_MAX 40              /* bytes in the stream model */
 #endif
-#define RAW_MAX (S_MAX + 4)
+#ifndef RAW_MAX
+#define RAW_MAX (S_MAX + 8)
+#endif
 
 static u8 st_data[S_MAX];
 static unsigned st_len, st_pos;
